@@ -1786,7 +1786,7 @@ char *hostlist_shift(hostlist_t hl)
 
 char *hostlist_pop_range(hostlist_t hl)
 {
-    int i;
+    int i, n;
     char buf[MAXHOSTRANGELEN + 1];
     hostlist_t hltmp;
     hostrange_t tail;
@@ -1802,13 +1802,15 @@ char *hostlist_pop_range(hostlist_t hl)
     while (i >= 0 && hostrange_within_range(tail, hl->hr[i]))
         i--;
 
-    for (i++; i < hl->nranges; i++) {
+    /* count the records moved: pushing them may join some (nranges of
+     * hltmp is then smaller than the number of slots given up here) */
+    for (n = ++i; i < hl->nranges; i++) {
         hostlist_push_range(hltmp, hl->hr[i]);
         hostrange_destroy(hl->hr[i]);
         hl->hr[i] = NULL;
     }
     hl->nhosts -= hltmp->nhosts;
-    hl->nranges -= hltmp->nranges;
+    hl->nranges = n;
 
     UNLOCK_HOSTLIST(hl);
     hostlist_ranged_string(hltmp, MAXHOSTRANGELEN, buf);
@@ -1819,7 +1821,7 @@ char *hostlist_pop_range(hostlist_t hl)
 
 char *hostlist_shift_range(hostlist_t hl)
 {
-    int i;
+    int i, n;
     char buf[1024];
     hostlist_t hltmp = hostlist_new();
     if (!hltmp)
@@ -1840,15 +1842,18 @@ char *hostlist_shift_range(hostlist_t hl)
     } while ( (++i < hl->nranges)
             && hostrange_within_range(hltmp->hr[0], hl->hr[i]) );
 
-    hostlist_shift_iterators(hl, i, 0, hltmp->nranges);
+    /* i records were moved: pushing them may have joined some, so hltmp
+     * can hold fewer records than the slots given up here */
+    n = i;
+    hostlist_shift_iterators(hl, i, 0, n);
 
     /* shift rest of ranges back in hl */
     for (; i < hl->nranges; i++) {
-        hl->hr[i - hltmp->nranges] = hl->hr[i];
+        hl->hr[i - n] = hl->hr[i];
         hl->hr[i] = NULL;
     }
     hl->nhosts -= hltmp->nhosts;
-    hl->nranges -= hltmp->nranges;
+    hl->nranges -= n;
 
     UNLOCK_HOSTLIST(hl);
 
